@@ -20,7 +20,7 @@ func init() {
 		Rule: "case = (newer writer schema W, value, older reader type T = W minus fields at every nesting level (or with fields retyped), with the unknown-fields holder on every struct / on none / at random). Oracles: (1) the holder of every struct instance equals the concatenation, in message order, of the raw bytes of its unrecognised fields, computed from the schema-less parse tree extents; (2) known fields equal the reference decoder's; (3) EncodedSize == bytes written == a well-formed message, and decoding the re-encoded bytes with W gives back the original W value when every struct of T keeps a holder; (4) a holder-less twin of T decodes the same message to the same known fields. Half of the cases run under the pool sanitizer. distinct = distinct (W shape, T shape); non-trivial = at least one unknown field was retained",
 		Plan: func(tier string) []BuildPlan {
 			if tier == "thorough" {
-				return []BuildPlan{{"plain", 200000}, {"checkptr", 50000}, {"asan", 10000}}
+				return []BuildPlan{{"plain", 400000}, {"checkptr", 100000}, {"asan", 20000}}
 			}
 			return []BuildPlan{{"plain", 5000}, {"checkptr", 2000}}
 		},
